@@ -215,3 +215,58 @@ def errkind(e):
 
 def now():
     return time.time()
+
+
+# ---------------------------------------------------------------- call history before the fit under test
+ACCESSORS = ("components", "scores", "components_amplitude", "components_phase", "scores_amplitude", "scores_phase",
+             "explained_variance", "explained_variance_ratio", "singular_values", "squared_covariance_fraction",
+             "covariance_fraction_CD95", "fraction_variance_X_explained_by_X", "fraction_variance_Y_explained_by_Y",
+             "fraction_variance_Y_explained_by_X", "cross_correlation_coefficients", "correlation_coefficients_X",
+             "correlation_coefficients_Y", "homogeneous_patterns", "heterogeneous_patterns", "eigenvalues", "damping_times",
+             "periods", "filter_patterns", "decorrelation_time", "get_params")
+
+
+def exercise(m, *data, normalized=(None,)):
+    """call everything a user may have called on a fitted model before the calls under test: every accessor, transform of
+    the data, inverse_transform of the scores, compute(), serialize(). Errors are ignored here (each has its own check);
+    the point is the state the calls may leave behind."""
+    for name in ACCESSORS:
+        f = getattr(m, name, None)
+        if f is None:
+            continue
+        for kw in ({}, {"normalized": False}, {"normalized": True}):
+            try:
+                f(**kw)
+            except Exception:
+                pass
+    for kw in ({}, {"normalized": True}):
+        try:
+            t = m.transform(*data, **kw)
+        except Exception:
+            t = None
+        if t is not None:
+            try:
+                m.inverse_transform(*(t if isinstance(t, (list, tuple)) and len(data) > 1 else (t,)))
+            except Exception:
+                pass
+    try:
+        s = m.scores()
+        m.inverse_transform(*(s if isinstance(s, (list, tuple)) else (s,)))
+    except Exception:
+        pass
+    for name in ("compute", "serialize"):
+        try:
+            getattr(m, name)()
+        except Exception:
+            pass
+
+
+def other_like(rng, da, scale=1.0):
+    """data with the structure of `da` (dims, coords, NaN pattern) and unrelated values"""
+    import numpy as np
+    v = np.asarray(da.values)
+    w = rng.normal(size=v.shape) * scale * (np.nanstd(np.abs(v)) or 1.0) + rng.normal()
+    if np.iscomplexobj(v):
+        w = w + 1j * rng.normal(size=v.shape)
+    w = np.where(np.isnan(v), np.nan, w)
+    return da.copy(data=w.astype(v.dtype))
